@@ -17,7 +17,10 @@ META = {
              "layout (3-D / 4-D / RGB), a stored dtype with or without header "
              "scaling, and a sharding option string; non-trivial = the "
              "affine is not diagonal or has a negative determinant; distinct "
-             "by the whole case."),
+             "by the whole case."
+             ' Also: almost axis-aligned rotations, a second --generate-in'
+             'fo run into the same destination, the compact URL form compu'
+             'ted from Python floats and NumPy scalars.'),
     "trusted_base": ["nibabel (writes the file, reports the affine the tool "
                      "sees)", "float64 arithmetic with relative tolerance "
                      "1e-9"],
